@@ -65,7 +65,7 @@ pub fn run_session(calls: &[&str]) -> String {
             b'X' => {
                 let n: usize = call[1..].parse().unwrap();
                 let e = rt.execute(n);
-                waiting_input = matches!(e, Event::Input(..));
+                waiting_input = matches!(e, Event::Input(..) | Event::Inkey);
                 out.push(show_event(&e));
             }
             b'R' | b'A' | b'K' => {
@@ -104,7 +104,7 @@ pub fn run_session(calls: &[&str]) -> String {
                     out.push(show_event(&e));
                     if is_blocking(&e) {
                         done = true;
-                        waiting_input = matches!(e, Event::Input(..));
+                        waiting_input = matches!(e, Event::Input(..) | Event::Inkey);
                         break;
                     }
                 }
